@@ -379,8 +379,12 @@ def cell_key(world, placement, i):
     return P.cell_id(b, s, r, col)
 
 
-def xlsx_books(world, placement, sheet_orders=None, styled=True):
-    """{file name: xlsx bytes}, written by openpyxl in memory."""
+def xlsx_books(world, placement, sheet_orders=None, styled=True,
+               skip_sheets=(), skip_names=()):
+    """{file name: xlsx bytes}, written by openpyxl in memory.
+
+    skip_sheets: [(b, s)] sheets left out of their book (fault worlds);
+    skip_names: [k] defined names left undefined."""
     import openpyxl
     from openpyxl.workbook.defined_name import DefinedName
     from openpyxl.worksheet.formula import ArrayFormula
@@ -393,9 +397,13 @@ def xlsx_books(world, placement, sheet_orders=None, styled=True):
         order = (sheet_orders or {}).get(str(b)) or list(range(len(bk)))
         wss = {}
         for s in order:
+            if (b, s) in skip_sheets:
+                continue
             wss[s] = wb.create_sheet(P.sheet(b, s)['name'])
+        if not wss:
+            wb.create_sheet('Other')
         for i, c in enumerate(world['cells']):
-            if c['at'][0] != b:
+            if c['at'][0] != b or (b, c['at'][1]) in skip_sheets:
                 continue
             _, s, r, col = c['at']
             st = Rng(placement['style'], 'cell%s' % (c['at'],)) if styled and \
@@ -415,7 +423,7 @@ def xlsx_books(world, placement, sheet_orders=None, styled=True):
             else:
                 ws[a1] = c['v']
         for k, n in enumerate(world['names']):
-            if n['b'] != b:
+            if n['b'] != b or k in skip_names:
                 continue
             _, tb, ts, r1, c1, r2, c2 = n['t']
             name = P.sheet(tb, ts)['name'].replace("'", "''")
